@@ -40,8 +40,8 @@ func init() {
 				Rule: "in every cache statement each column is bound to / read into the matching value: key <- computeCacheHash, timestamp <-> Timestamp, leaf_index <-> LeafIndex",
 				Run:  c07e},
 			{ID: "C07.f", Title: "DETERMINISTIC-SIGNATURE", Template: "T6", MinInst: 1,
-				Rule: "ecdsa.PrivateKey.Sign is called with a nil random source over the SHA-256 of the message",
-				Run:  c07f},
+				Rule: "the SCT signature is requested with a nil random source over the SHA-256 of the message, whatever path the source takes to ecdsa Sign",
+				Run:  func(c *Ctx) { c07fFor(c, "ctlog.(*Log).addChainOrPreChain") }},
 			{ID: "C07.h", Title: "ACK-NAMES-OWN-SLOT", Template: "T2+T6", MinInst: 4,
 				Rule: "the index a waiter reports is the pool's first index plus the slot at which that very leaf is stored (also after evicting a low-priority entry), guarded by done / not evicted / no error (as C02.d)",
 				Run:  c02d},
@@ -638,7 +638,12 @@ func c07e(c *Ctx) {
 	}
 }
 
-func c07f(c *Ctx) {
+func c07f(c *Ctx) { c07fFor(c, "") }
+
+// c07fFor checks determinism of digitallySign as used by caller (all callers
+// when caller is empty): the random source given to ecdsa Sign is nil, either
+// literally or because it is a parameter that this caller binds to nil.
+func c07fFor(c *Ctx, caller string) {
 	f := c.Fn("ctlog.digitallySign")
 	if f == nil {
 		return
@@ -651,8 +656,28 @@ func c07f(c *Ctx) {
 	}
 	s := signs[0]
 	if !isNilIdent(info, s.Call.Args[0]) {
-		c.Bad(f.Name, s.Pos(), "the ECDSA signature is requested with a random source, so equal inputs no longer give equal SCT bytes")
-		return
+		// a parameter: every relevant call site must bind it to nil
+		po := objOf(info, s.Call.Args[0])
+		okAll, n := po != nil && isParamOrRecv(f, po), 0
+		where := s.Pos()
+		if okAll {
+			for _, g := range c.P.Funcs("") {
+				if g.Body == nil || (caller != "" && g.Top().Name != caller) {
+					continue
+				}
+				for _, cs := range g.Calls(Callee{pkgCtlog, "", "digitallySign"}) {
+					n++
+					if a := argForParam(f, cs.Call, po); a == nil || !isNilIdent(g.Info(), a) {
+						okAll = false
+						where = cs.Pos()
+					}
+				}
+			}
+		}
+		if !okAll || n == 0 {
+			c.Bad(f.Name, where, "the ECDSA signature is requested with a random source, so equal inputs no longer give equal signature bytes")
+			return
+		}
 	}
 	// digest = sha256.Sum256(msg)[:]
 	okDigest := false
